@@ -53,6 +53,9 @@ func Done(n int) { fmt.Fprintf(out, "%s%d\n", okMarker, n) }
 
 // Release starts g goroutines that spin on a flag and are released together; it returns when all have finished.
 func Release(g int, f func(worker int)) {
+	if max := runtime.GOMAXPROCS(0) - 1; g > max && max >= 2 {
+		g = max // every goroutine needs a processor of its own to spin on, and the releasing goroutine needs one too
+	}
 	var ready sync.WaitGroup
 	var wg sync.WaitGroup
 	var flag atomic.Bool
@@ -63,7 +66,10 @@ func Release(g int, f func(worker int)) {
 			defer wg.Done()
 			runtime.LockOSThread()
 			ready.Done()
-			for !flag.Load() {
+			for spins := 1; !flag.Load(); spins++ {
+				if spins%4096 == 0 {
+					runtime.Gosched()
+				}
 			}
 			f(w)
 		}(w)
@@ -94,7 +100,7 @@ func Children(scenario string, n, parallel int) (fails []Fail, finished int, jud
 		go func(i int) {
 			defer wg.Done()
 			defer func() { <-sem }()
-			cmd := exec.Command(os.Args[0], "-test.run", "^TestColdChild$", "-test.count=1", "-test.timeout=120s")
+			cmd := exec.Command(os.Args[0], "-test.run", "^TestColdChild$", "-test.count=1", "-test.timeout=300s")
 			env := make([]string, 0, len(os.Environ())+3)
 			for _, e := range os.Environ() {
 				if strings.HasPrefix(e, "VERIF_OUT=") || strings.HasPrefix(e, "VERIF_COLD") || strings.HasPrefix(e, "GORACE=") {
